@@ -654,6 +654,10 @@ def load_ragged_time_series(
         start_row = 0
     with _open(filename, mode="r") as input_file:
         for row, line in enumerate(input_file, start_row):
+            # If there is a header row, skip it
+            if header and row == start_row:
+                continue
+
             # If this is a comment line, skip it
             if comment is not None and commenter.match(line):
                 continue
